@@ -293,6 +293,9 @@ struct HoleDirs {
     probe: Option<String>,
     split: Option<BTreeMap<String, String>>,
     snaps: Vec<(String, String)>,
+    first: Vec<String>,
+    loopstart: BTreeMap<usize, String>,
+    loopend: BTreeMap<usize, String>,
 }
 
 fn parse_quoted(s: &str) -> R<(String, &str)> {
@@ -321,7 +324,7 @@ fn parse_quoted(s: &str) -> R<(String, &str)> {
 
 fn parse_dirs(lines: &[&str]) -> R<HoleDirs> {
     // join continuation lines: a directive starts with a keyword at line start (after trim)
-    let kws = ["subst ", "closure ", "loop ", "before ", "after ", "replace ", "selfname ", "nosig", "probe ", "hint ", "split ", "snap "];
+    let kws = ["subst ", "closure ", "loop ", "before ", "after ", "replace ", "selfname ", "nosig", "probe ", "hint ", "split ", "snap ", "first ", "loopstart ", "loopend "];
     let mut items: Vec<String> = Vec::new();
     for l in lines {
         let t = l.trim();
@@ -366,6 +369,16 @@ fn parse_dirs(lines: &[&str]) -> R<HoleDirs> {
                 }
             }
             d.split = Some(m);
+        } else if let Some(rest) = it.strip_prefix("loopstart ").or_else(|| it.strip_prefix("loopend ")) {
+            let (n, text) = rest.split_once("=>").ok_or_else(|| Bail(format!("bad loopstart/loopend directive {it}")))?;
+            let ord: usize = n.trim().parse().map_err(|_| Bail(format!("bad loop ordinal {n}")))?;
+            if it.starts_with("loopstart") {
+                d.loopstart.insert(ord, text.trim().to_string());
+            } else {
+                d.loopend.insert(ord, text.trim().to_string());
+            }
+        } else if let Some(rest) = it.strip_prefix("first ") {
+            d.first.push(rest.trim().trim_start_matches("=>").trim().to_string());
         } else if let Some(rest) = it.strip_prefix("snap ") {
             let (k, v) = rest.split_once('=').ok_or_else(|| Bail(format!("bad snap {rest}")))?;
             d.snaps.push((k.trim().to_string(), v.trim().to_string()));
@@ -723,6 +736,10 @@ fn transform_body(
         };
         scan_idents(block.to_token_stream(), &mut f_ident);
     }
+    // ghost-only text placed first in the body (e.g. `broadcast use ..;`)
+    for f in &dirs.first {
+        let _ = write!(prefix, "{f} ");
+    }
     // ghost snapshots of entry values (for hints that must mention the initial value of a `mut` parameter)
     for (k, v) in &dirs.snaps {
         let _ = write!(prefix, "let ghost {k} = {v}; ");
@@ -827,6 +844,21 @@ fn transform_body(
             spec = tail.trim_start();
         }
         edits.push(Edit { start: bs, end: bs, text: format!("\n{spec}\n") });
+    }
+    // structural ghost anchors: first / last position inside a loop body (robust against renames)
+    for (n, text) in &dirs.loopstart {
+        let Some((_, body, _)) = col.loops.get(*n) else {
+            return bail(format!("lost anchor: loopstart names loop #{n}"));
+        };
+        let (bs, _) = range(*body);
+        edits.push(Edit { start: bs + 1, end: bs + 1, text: format!(" {text} ") });
+    }
+    for (n, text) in &dirs.loopend {
+        let Some((_, body, _)) = col.loops.get(*n) else {
+            return bail(format!("lost anchor: loopend names loop #{n}"));
+        };
+        let (_, be) = range(*body);
+        edits.push(Edit { start: be - 1, end: be - 1, text: format!(" {text} ") });
     }
     if col.loops.len() != dirs.loops.len() {
         return bail(format!(
